@@ -206,6 +206,13 @@ def substitute(t: T, mapping: Dict[T, T], memo=None) -> T:
 
 
 def getitem(base: T, idx: T) -> T:
+    if base.op == "setitem" and base.args[1].op == "slice" and idx.op == "const" and isinstance(idx.args[0], int) and \
+            not isinstance(idx.args[0], bool) and idx.args[0] >= 0:
+        # X.at[:k].set(V)[i] == V[i] for i < k   (and X[i] for i >= k): literal bounds, unit step
+        lo, hi, st = base.args[1].args
+        if lo.op == "const" and lo.args[0] in (None, 0) and hi.op == "const" and isinstance(hi.args[0], int) and \
+                st.op == "const" and st.args[0] in (None, 1):
+            return getitem(base.args[2], idx) if idx.args[0] < hi.args[0] else getitem(base.args[0], idx)
     if base.op == "setitem":
         b, k, v = base.args
         if k.op == "const" and idx.op == "const":
@@ -255,6 +262,35 @@ def getitem(base: T, idx: T) -> T:
                 j = (l_ or 0) + idx.args[0]
                 if h_ is None or j < h_:
                     return getitem(base.args[0], const(j))
+    if base.op == "call" and idx.op == "const" and isinstance(idx.args[0], int) and not isinstance(idx.args[0], bool) and \
+            base.args[0].op == "name" and base.args[0].args[0].split(".")[-1] in ("stack", "array", "asarray") and \
+            base.args[0].args[0].split(".")[0] in ("jax", "numpy") and len(base.args) >= 2 and \
+            base.args[1].op in ("tuple", "list") and not any(a_.op == "star" for a_ in base.args[1].args) and \
+            all(a_.op == "kw" and a_.args[0] == "axis" and a_.args[1].op == "const" and a_.args[1].args[0] == 0
+                for a_ in base.args[2:]) and -len(base.args[1].args) <= idx.args[0] < len(base.args[1].args):
+        return base.args[1].args[idx.args[0]]          # stack((a, b))[i] / array([a, b])[i] is the i-th stacked item
+    if idx.op == "call" and idx.args[0].op == "name" and idx.args[0].args[0].split(".")[-1] == "diag_indices" and \
+            idx.args[0].args[0].split(".")[0] in ("jax", "numpy") and len(idx.args) == 2:
+        return call(name(idx.args[0].args[0].rsplit(".", 1)[0] + ".diag"), base)     # M[diag_indices(n)] is diag(M)
+    if idx.op == "tuple" and len(idx.args) >= 2 and idx.args[0].op == "const" and isinstance(idx.args[0].args[0], int) and \
+            not isinstance(idx.args[0].args[0], bool) and any(a_.op == "slice" for a_ in idx.args[1:]):
+        # X[i, rest...] is X[i][rest...] for an integer i when the index holds a slice: only an array takes one (a
+        # dictionary keyed by tuples, D[(0, i)], must keep its key whole)
+        rest = idx.args[1:]
+        return getitem(getitem(base, idx.args[0]), rest[0] if len(rest) == 1 else mk("tuple", *rest))
+    if base.op == "call" and idx.op == "const" and isinstance(idx.args[0], int) and not isinstance(idx.args[0], bool) and \
+            base.args[0].op == "name" and base.args[0].args[0].split(".")[-1] == "swapaxes" and len(base.args) == 4 and \
+            all(a_.op == "const" for a_ in base.args[2:]) and {base.args[2].args[0], base.args[3].args[0]} == {1, 2}:
+        return mk("attr", getitem(base.args[1], idx), "T")     # swapaxes(X, 1, 2)[i] is X[i].T  (X has rank 3)
+    if base.op == "binop" and base.args[0] in ("+", "-") and idx.op == "const" and isinstance(idx.args[0], int) and \
+            not isinstance(idx.args[0], bool) and isinstance(base.args[1], T) and isinstance(base.args[2], T):
+        a_, b_ = base.args[1], base.args[2]
+        def axis_shuffle_of(x, y):
+            return x.op == "call" and x.args[0].op == "name" and x.args[0].args[0].split(".")[-1] in (
+                "swapaxes", "transpose", "moveaxis") and len(x.args) >= 2 and x.args[1] is y
+        if axis_shuffle_of(b_, a_) or axis_shuffle_of(a_, b_):
+            # (A +/- swapaxes(A, ..))[i]: both operands are arrays of one shape, so the item of the sum is the sum of items
+            return mk("binop", base.args[0], getitem(a_, idx), getitem(b_, idx))
     if base.op == "comp" and idx.op != "slice":
         e_ = _comp_element(base, idx)
         if e_ is not None:
@@ -589,6 +625,14 @@ def _canon_select(f: T, args) -> Optional[T]:
             for c_ in conds[i + 1:]:
                 if _const_cond(c_, d, v_.args[0]) is not False:
                     sequential = False
+    all_zero = all(v_.op == "const" and v_.args[0] in (0, 0.0) and not isinstance(v_.args[0], bool) for v_ in vals) and \
+        all(any(y is d for y in subterms(c_)) for c_ in conds)
+    if all_zero and len(conds) >= 2:
+        # every branch zeroes: select([c1, c2, ..], [0, 0, ..], x) is where(c1 | c2 | .., 0, x)
+        m_ = conds[0]
+        for c_ in conds[1:]:
+            m_ = mk("binop", "|", m_, c_)
+        return call(wh, m_, vals[0], d)
     if sequential:
         cur = d
         for c_, v_ in zip(conds, vals):
@@ -609,10 +653,23 @@ def call(f: T, *args: T) -> T:
         r_ = _canon_select(f, args)
         if r_ is not None:
             return r_
+    if f.op == "name" and f.args[0].endswith("linalg.multi_dot") and len(args) == 1 and args[0].op in ("list", "tuple") and \
+            len(args[0].args) >= 2 and not any(a_.op == "star" for a_ in args[0].args):
+        # multi_dot([a, b, c]) is a @ b @ c (the parenthesisation is an optimisation)
+        mm = name(f.args[0].rsplit(".", 2)[0] + ".matmul")
+        cur = args[0].args[0]
+        for a_ in args[0].args[1:]:
+            cur = mk("call", mm, cur, a_)
+        return cur
     if f.op == "name" and f.args[0].split(".")[-1] == "take" and f.args[0].split(".")[0] in ("jax", "numpy") and len(args) == 3 \
             and args[0].op != "kw" and args[1].op != "kw" and args[2].op == "kw" and args[2].args[0] == "axis" and \
             args[2].args[1].op == "const" and args[2].args[1].args[0] == 0:
         return getitem(args[0], args[1])                    # take(x, i, axis=0) is x[i]
+    if f.op == "name" and f.args[0].split(".")[-1] == "take" and f.args[0].split(".")[0] in ("jax", "numpy") and len(args) == 3 \
+            and args[0].op != "kw" and args[1].op != "kw" and args[2].op == "kw" and args[2].args[0] == "axis" and \
+            args[2].args[1].op == "const" and args[2].args[1].args[0] == 1:
+        return getitem(args[0], mk("tuple", mk("slice", NONE, NONE, NONE), args[1]))     # take(x, i, axis=1) is x[:, i]
+
     t = mk("call", f, *args)
     t = _canon_where(t)
     return _canon_average(t) if t.op == "call" else t
@@ -1513,7 +1570,46 @@ class Evaluator:
             return
         self._loop(fr, st, it, st.target)
 
+    def _counting_while(self, fr, st: ast.While) -> Optional[ast.For]:
+        """i = a; while i < n: BODY; i += 1   (i assigned nowhere else in the loop, no break / continue, n not assigned in
+        the loop, a an int literal >= 0 held by i on entry)   is   for i in range(a, n): BODY"""
+        import copy
+        t = st.test
+        if st.orelse or not (isinstance(t, ast.Compare) and len(t.ops) == 1 and isinstance(t.ops[0], ast.Lt)
+                             and isinstance(t.left, ast.Name)):
+            return None
+        v = t.left.id
+        if not st.body or not (isinstance(st.body[-1], ast.AugAssign) and isinstance(st.body[-1].op, ast.Add)
+                               and isinstance(st.body[-1].target, ast.Name) and st.body[-1].target.id == v
+                               and isinstance(st.body[-1].value, ast.Constant) and st.body[-1].value.value == 1):
+            return None
+        body = st.body[:-1]
+        for b_ in body:
+            for n_ in ast.walk(b_):
+                if isinstance(n_, (ast.Break, ast.Continue)):
+                    return None
+                if isinstance(n_, ast.Name) and isinstance(n_.ctx, (ast.Store, ast.Del)) and n_.id == v:
+                    return None
+        bound_names = {n_.id for n_ in ast.walk(t.comparators[0]) if isinstance(n_, ast.Name)}
+        if bound_names & set(self._assigned_names(st.body)):
+            return None
+        cur = fr.lookup(v)
+        if cur is None or not (cur.op == "const" and isinstance(cur.args[0], int) and not isinstance(cur.args[0], bool)
+                               and cur.args[0] >= 0):
+            return None
+        rng = ast.Call(func=ast.Name(id="range", ctx=ast.Load()),
+                       args=([] if cur.args[0] == 0 else [ast.Constant(value=cur.args[0])]) + [copy.deepcopy(t.comparators[0])],
+                       keywords=[])
+        loop = ast.For(target=ast.Name(id=v, ctx=ast.Store()), iter=rng, body=copy.deepcopy(body) or [ast.Pass()], orelse=[])
+        ast.copy_location(loop, st)
+        ast.fix_missing_locations(loop)
+        return loop
+
     def st_While(self, fr, st):
+        as_for = self._counting_while(fr, st)
+        if as_for is not None and "range" not in fr.env.vars:
+            self.st_For(fr, as_for)
+            return
         # the condition is evaluated with havoc'd variables inside _loop: evaluate after havoc
         lid = st.lineno
         assigned = self._assigned_names(st.body)
@@ -1831,6 +1927,9 @@ class Evaluator:
                 if names is not None and a in names:
                     return getitem(base, const(names.index(a)))
         if base.op not in ("record", "mod", "name", "cls", "fn", "const") and not a.startswith("__"):
+            cv_ = self._class_level_value(fr, base, a)
+            if cv_ is not None:
+                return cv_
             c_ = self.static_type(base, fr) if fr is not None else None
             if c_ is not None and base.op != "call":
                 names = self.record_fields(c_)
@@ -1859,6 +1958,64 @@ class Evaluator:
             if pseudo is not None:
                 return pseudo
         return mk("attr", base, a)
+
+    def _class_level_value(self, fr, base: T, a: str) -> Optional[T]:
+        """obj.<a> where <a> is neither an instance field nor a method but a class-level binding that every class obj can
+        be resolves to the same thing:
+          - a strategy attribute   _kernel = staticmethod(sr.stochastic_reconfiguration)   -> that function
+          - a class constant       _weight_cap = 100.0  /  NAMES: ClassVar[...] = ("a", "b") -> the literal
+        None otherwise (instance fields, dataclass fields with defaults, methods, anything not a literal / function)."""
+        if fr is None:
+            return None
+        c = self.static_type(base, fr)
+        if c is None and base is sym("self"):
+            c = fr.self_class
+        if c is None or c not in self.p.classes:
+            return None
+        exact = base in self.exact_types or (base is sym("self") and self._frame_exact(fr))
+        cands = [c] if exact else self.p.subclasses(c)
+        found = []
+        for sc in cands:
+            if self.p.lookup_method(sc, a) is not None:
+                return None
+            owner, node = None, None
+            for q_ in self.p.classes[sc].mro:
+                cc = self.p.classes.get(q_)
+                if cc is not None and a in cc.class_attrs:
+                    owner, node = cc, cc.class_attrs[a]
+                    break
+            if node is None:
+                return None
+            fld = [f_ for f_ in owner.own_fields if f_.name == a]
+            if fld and "ClassVar" not in ast.unparse(fld[0].annotation):
+                return None                   # an instance field with a default: instances may differ
+            found.append((owner, node))
+        if not found or len({ast.dump(n_) for _, n_ in found}) != 1:
+            return None
+        owner, node = found[0]
+        mod = self.p.modules[owner.module]
+        from .model import dotted
+        if isinstance(node, ast.Call) and isinstance(node.func, ast.Name) and node.func.id == "staticmethod" and \
+                len(node.args) == 1 and not node.keywords:
+            dn = dotted(node.args[0])
+            r = self.p.resolve_name(mod, dn) if dn else None
+            if r and r[0] == "func":
+                return mk("fn", r[1])
+            if r and r[0] == "ext":
+                return name(r[1])
+            return None
+        try:
+            lit = ast.literal_eval(node)
+        except Exception:
+            return None
+
+        def term(v):
+            if isinstance(v, (tuple, list)):
+                return mk("tuple" if isinstance(v, tuple) else "list", *[term(x) for x in v])
+            return const(v)
+        if isinstance(lit, (int, float, complex, str, bytes, tuple, bool)) or lit is None:
+            return term(lit)
+        return None
 
     def eval_index(self, fr, n) -> T:
         if isinstance(n, ast.Slice):
@@ -2130,6 +2287,25 @@ class Evaluator:
             r = self.inline_closure(fr, f, args, kws, line)
             if r is not None:
                 return r
+        if f.op == "fn" and self._depth < self.MAX_INLINE_DEPTH and (self.auto_inline_helpers or self.inline_policy is not None):
+            base_fi = self.p.functions.get(f.args[0])
+            if base_fi is not None and base_fi.is_dispatch_base and base_fi.cls is None:
+                impls = [base_fi] + list(self.p.modules[base_fi.module].dispatch.get(base_fi.name, []))
+                if len(impls) > 1 and not any(isinstance(a, T) and a.op in ("star", "dstar") for a in list(args) + list(kws)):
+                    # functools.singledispatch: which implementation runs depends on the run-time type of the first
+                    # argument; every implementation is evaluated in place and the result is the selection between them
+                    res = []
+                    for im in impls:
+                        r_ = self.inline_function(fr, mk("fn", im.qualname), im, None, list(args), list(kws), line)
+                        if r_ is None:
+                            res = None
+                            break
+                        res.append(r_)
+                    if res:
+                        out = res[0]
+                        for i_, r_ in enumerate(res[1:], 1):
+                            out = mk("phi", mk("dispatch", f.args[0], impls[i_].qualname, args[0] if args else NONE), r_, out)
+                        return out
         if kws and f.op in ("attr", "fn", "cls") and not any(
                 isinstance(a, T) and a.op in ("star", "dstar") for a in list(args) + list(kws)):
             args, kws = self._keywords_to_positions(fr, f, list(args), list(kws))
@@ -2140,6 +2316,16 @@ class Evaluator:
                 t = setitem(tgt.args[0].args[0], tgt.args[1], args[0])
                 self.note_line(t, line)
                 return t
+        # X.at[idx].add(v) on a fresh zero array at distinct positions (a slice of an argsort / arange) is a set
+        if f.op == "attr" and f.args[1] == "add" and len(args) == 1 and not kws:
+            tgt = f.args[0]
+            if tgt.op == "getitem" and tgt.args[0].op == "attr" and tgt.args[0].args[1] == "at":
+                base_ = strip_wrappers(tgt.args[0].args[0])
+                if base_.op == "call" and (array_fn(base_) or "") in ("zeros", "zeros_like") and any(
+                        u.op == "call" and (array_fn(u) or "") in ("argsort", "arange") for u in subterms(tgt.args[1])):
+                    t = setitem(tgt.args[0].args[0], tgt.args[1], args[0])
+                    self.note_line(t, line)
+                    return t
         if f.op == "cls":
             rec = self.make_record(fr, f, args, kws, line)
             if rec is not None:
@@ -2299,6 +2485,8 @@ class Evaluator:
             return None
         if any(isinstance(a, T) and a.op in ("star", "dstar") for a in args + kws):
             return None
+        if nm == "builtins.divmod" and len(args) == 2 and not kws:
+            return mk("tuple", mk("binop", "//", args[0], args[1]), mk("binop", "%", args[0], args[1]))
         if nm in ("operator.itemgetter", "operator.attrgetter") and args and not kws and all(
                 a.op == "const" for a in args):
             return mk(nm.split(".")[1], *args)
